@@ -19,6 +19,8 @@ func (s *scn) applyExtra(st CStep) {
 		s.applyOccupyCycle(st)
 	case "zeroswitch":
 		s.applyZeroSwitch(st)
+	case "adminswap":
+		s.applyAdminSwap(st)
 	default:
 		applyGov(s, st)
 	}
